@@ -3,7 +3,7 @@ open Common
 
 (* match|text                          -> none | name|restlen
    decide|S|text|known                 -> str|enc
-   decide|B|bytes|known|ign_full|ign_stripped -> bytes|enc|paylen  or conflict|name
+   decide|B|bytes|known|ign_full|ign_stripped|utf8 names;... -> bytes|enc|paylen  or conflict|name
    render|u(0/1)|oenc or ~|errors|encoded or ~ or !|piece|piece... -> str|.. / bytes|.. / err *)
 let opt_field f = if String.trim f = "~" then None else Some (str_of_field f)
 
@@ -14,14 +14,17 @@ let handle line =
      | None -> "none"
      | Some (name, rest) -> field_of_str name ^ "|" ^ string_of_int (List.length rest))
   | ["decide"; "S"; t; known] ->
-    (match decide (fun _ -> []) (IStr (str_of_field t)) (opt_field known) with
+    (match decide (fun _ -> []) (fun _ -> false) (IStr (str_of_field t)) (opt_field known) with
      | OStr (e, _) -> "str|" ^ field_of_str e
      | _ -> "!unexpected")
-  | ["decide"; "B"; b; known; ifull; istripped] ->
+  | ["decide"; "B"; b; known; ifull; istripped; utf8names] ->
     let bytes = str_of_field b in
     let tf = str_of_field ifull and ts = str_of_field istripped in
     let dec_ignore x = if x = bytes then tf else ts in
-    (match decide dec_ignore (IBytes bytes) (opt_field known) with
+    (* the codec registry's answer, as the table of the names it takes for utf-8 *)
+    let table = List.map str_of_field (List.filter (fun x -> x <> "") (String.split_on_char ';' utf8names)) in
+    let names_utf8 n = List.mem n table in
+    (match decide dec_ignore names_utf8 (IBytes bytes) (opt_field known) with
      | OBytes (e, p) -> "bytes|" ^ field_of_str e ^ "|" ^ string_of_int (List.length p)
      | OBomConflict n -> "conflict|" ^ field_of_str n
      | OStr _ -> "!unexpected")
